@@ -36,7 +36,11 @@ ASSUMPTIONS = [
     "timestamp to the end of the last meter day (the frame from_series itself would build); other frame layouts are "
     "not enumerated",
     "per-day counts are read from the coverage frame returned by the instance's own _set_data (recorded by a "
-    "subclass that only stores the return value); rows missing from that frame count as a mismatch",
+    "subclass that only stores the return value); a meter day missing from that frame is a mismatch, except a day "
+    "without a single present reading, which may have no counts at all (the sufficiency test sees a day without "
+    "temperature either way)",
+    "violation keys do not carry Baseline/Reporting: both inherit the temperature code unchanged from the same private "
+    "base class (the class is named in the detail)",
     "temperatures are multiples of 0.5 F so that the reference mean is exact; comparison at 1e-9 relative",
     "extra output rows (days that are not meter days) are ignored",
     "Reporting classes share the temperature code with the Baseline classes and are enumerated on a d <= 1 slice",
@@ -175,7 +179,7 @@ def close(obs, exp):
 
 
 def run_case(case):
-    key0 = {"family": case["family"], "cls": case.get("cls", "baseline"), "entry": case["entry"], "feed": case["feed"],
+    key0 = {"family": case["family"], "entry": case["entry"], "feed": case["feed"],
             "meter_day": "06:00" if case["meter"] == "daily06" else "midnight"}
     inputs, days, times, values = build_inputs(case)
     ref = tempday.day_stats(times, values, days)
@@ -197,12 +201,18 @@ def run_case(case):
         for t, a, b in zip(index_minutes(cov.index), cov["temperature_not_null"].to_numpy(dtype="float64"),
                            cov["temperature_null"].to_numpy(dtype="float64")):
             got_c[t] = (a, b)
-    head = (f"{case['zone']} {case['window']} window, feed {case['feed']} min in {case.get('feed_zone', 'same')}, meter "
+    head = (f"{case.get('cls', 'baseline')} class, {case['zone']} {case['window']} window, feed {case['feed']} min in {case.get('feed_zone', 'same')}, meter "
             f"{case['meter']}, NaN runs {case.get('runs', [])}: ")
-    viol, beh = [], []
+    found = {}  # (clause, edge) -> [first detail, number of days]
+    beh = []
     n_partial = 0
+
+    def flag(clause, edge, detail):
+        slot = found.setdefault((clause, edge), [detail, 0])
+        slot[1] += 1
+
     for k, (r, (a, b)) in enumerate(zip(ref, days)):
-        edge = "first_day" if k == 0 else "last_day" if k == len(days) - 1 else "interior"
+        edge = "last_day" if k == len(days) - 1 else "other"
         date = iv.min_to_wall(a, case["zone"])[0]
         desc = f"meter day {date} ({(b - a) // 60} h): {r['present']} present / {r['absent']} absent readings"
         exp = r["expected"]
@@ -219,23 +229,25 @@ def run_case(case):
             ok, clause, want = close(got, exp), "day_mean", repr(float(exp))
         tag = ("m" if exp is None else "v") + ("" if ok else "!")
         if not ok:
-            viol.append({"clause": clause, "key": dict(key0, edge=edge),
-                         "detail": head + desc + f"; temperature expected {want}, got {got!r}"})
+            flag(clause, edge, desc + f"; temperature expected {want}, got {float(got)!r}")
         c = got_c.get(a)
         if c is None or np.isnan(c[0]) or np.isnan(c[1]):
-            viol.append({"clause": "counts_missing", "key": dict(key0, edge=edge),
-                         "detail": head + desc + f"; the coverage frame has no counts for this day ({c})"})
-            tag += "c?"
+            if r["present"] > 0:  # a day without any present reading may have no counts at all (see ASSUMPTIONS)
+                flag("counts_missing", None, desc + f"; the coverage frame has no counts for this day ({c})")
+                tag += "c?"
         else:
             if c[0] != r["present"]:
-                viol.append({"clause": "count_present", "key": dict(key0, edge=edge),
-                             "detail": head + desc + f"; temperature_not_null = {c[0]!r}"})
+                flag("count_present", None, desc + f"; temperature_not_null = {float(c[0])!r}")
                 tag += "p!"
             if c[1] != r["absent"]:
-                viol.append({"clause": "count_absent", "key": dict(key0, edge=edge),
-                             "detail": head + desc + f"; temperature_null = {c[1]!r}"})
+                flag("count_absent", None, desc + f"; temperature_null = {float(c[1])!r}")
                 tag += "a!"
         beh.append(tag)
+    viol = []
+    for (clause, edge), (detail, n) in found.items():
+        key = dict(key0) if edge is None else dict(key0, edge=edge)
+        viol.append({"clause": clause, "key": key,
+                     "detail": head + detail + (f" (and {n - 1} more meter day(s) of this case)" if n > 1 else "")})
     if case["family"] == "billing":
         beh = beh[27:36] + [sum(1 for x in beh if "!" in x or "?" in x)]
     return {"behaviour": beh, "violations": viol, "nontrivial": n_partial > 0 or not case.get("runs"),
@@ -317,9 +329,9 @@ def cases(tier):
                     for entry in ("from_series", "frame"):
                         add({"family": "billing", "cls": "baseline", "entry": entry, "feed": feed, "feed_zone": "same",
                              "meter": "billing", "zone": z, "window": w, "dst_pos": 2}, 1,
-                            lattice=1 if feed == 60 else 4)
+                            lattice=(1 if feed == 60 else 8) if quick else (1 if feed == 60 else 2))
                     add({"family": "billing", "cls": "reporting", "entry": "from_series", "feed": feed, "feed_zone": "same",
-                         "meter": "billing", "zone": z, "window": w, "dst_pos": 2}, 1, lattice=6 * 60 // feed)
+                         "meter": "billing", "zone": z, "window": w, "dst_pos": 2}, 1, lattice=12 * 60 // feed)
     # ---- d = 2 (thorough): two runs, 4-hour lattice (hourly feed) / 6-hour lattice (half-hourly feed)
     if not quick:
         for w in ("spring", "autumn"):
